@@ -518,9 +518,14 @@ def main():
     ck.cov["rule"] = ("random well-typed remora statement sequences (expression depth <= 5, container sizes 0..5 incl. 0x3, 1x0, 1x1, non-square, "
                       "row/column-major), every assignment form, deliberate aliasing patterns; each statement executed by compiled C++ (2 value types x 2 back-ends), "
                       "by the extracted Coq interpreter and by the reference evaluator; every container printed after every statement; non-trivial = assignment or reduction statements (element sets excluded)")
+    ck.cov["rule"] += ("; sparse stream: %d command sequences on compressed_vector / compressed_matrix (storage operations, assignment kernels with 6 functors, "
+                       "operator forms plain/noalias x = += -= *=, 9 shapes of sparse expressions, dense and compressed targets, both orientations, sizes 0..12), "
+                       "each executed by harness/c01_sparse.cpp and by the extracted C01SparseExec.run_cmd, values + capacities + stored index sequences compared exactly, "
+                       "element-wise meaning and storage invariant monitored on the implementation's output") % ck.notes.get("sparse_stream", {}).get("cases", 0)
     ck.cov["samples"] = samples
     ck.notes["construct_counts"] = stats
-    ck.finish(explanation="proof over the model (assignment forms, reductions, rewrite rules) + exact three-way correspondence on generated programs; partial: OpenBLAS internals and block-kernel internals are only compared")
+    ck.assumptions.append("sparse stream: operands of one statement have equal shapes, iterator positions passed to set_element/clear_range are legal, noalias forms without aliasing; statements that do not compile (compressed = expression, compressed_matrix = other orientation / dense matrix, x -= a*b of sparse operands) are never generated")
+    ck.finish(explanation="proof over the models (dense assignment forms, reductions, rewrite rules; sparse storage, sparse kernels for every functor, sparse expression iterators) + exact correspondence on generated programs / command sequences; partial: the statement level of the sparse model (which kernel an operator form calls) is compared only; OpenBLAS internals and dense block-kernel internals are only compared")
 
 
 if __name__ == "__main__":
